@@ -57,11 +57,16 @@ def case_strategy(draw, tier):
         case["flags"] = [draw(st.floats(0, 1)) < dens for _ in range(n)]
         if draw(st.integers(0, 5)) > 0:
             case["flags"][0] = False
+        # what the callbacks hand up / down as their state: distinct tuples, small integers around zero (depth offsets), or
+        # values that look like markers (-2, -1, 0, None, False, "")
+        case["state_kind"] = draw(st.sampled_from(["tuple", "tuple", "int-offset", "markers"]))
     elif op == "by_type":
         case["type"] = draw(st.integers(0, 8))
     elif op == "furcation_order":
         case["k"] = draw(st.integers(0, 5))
     elif op == "short_tip":
+        # an earlier call of the same transform object was aborted by an exception raised in the user's callback
+        case["aborted_before"] = draw(st.integers(0, 3)) == 0
         case["thre_sel"] = draw(st.integers(0, 10 ** 6))
         case["thre_mul"] = draw(st.sampled_from([0.5, 0.9, 1.0, 1.1, 2.0, 100.0]))
     # transform objects (Cut*) may have been used on another tree before
@@ -200,6 +205,10 @@ def _as_iterable(ids, how):
     return list(ids)
 
 
+class _Veto(Exception):
+    pass
+
+
 def run_case(case, ctx):
     from swcgeom.core import cut_tree, get_subtree, to_subtree
     from swcgeom.transforms import (CutAxonTree, CutByFurcationOrder, CutByType, CutDendriteTree,
@@ -247,14 +256,27 @@ def run_case(case, ctx):
         surv = no_removed_ancestor(flagged)
         called = []
         errs = []
+        kind = case.get("state_kind", "tuple")
+        ctx.cls("callback-state:" + kind)
+        depth = models.depth_list(parents)
+        MARK = [-2, -1, 0, None, False, "", -3, 2, -2]
+
+        def val(i):
+            if kind == "int-offset":
+                return depth[i] - 2 - (n % 3)
+            if kind == "markers":
+                return MARK[(i + n) % len(MARK)]
+            return ("v", i)
+
+        same = lambda a, b: a == b and type(a) is type(b)  # noqa
         if op == "cut_enter":
             def enter(node, pv):
                 i = int(node.id)
                 called.append(i)
-                want = None if parents[i] == -1 else ("v", parents[i])
-                if pv != want:
+                want = None if parents[i] == -1 else val(parents[i])
+                if not same(pv, want):
                     errs.append(f"node {i} received {pv!r}, expected {want!r}")
-                return ("v", i), flags[i]
+                return val(i), flags[i]
 
             out = cut_tree(tree, enter=enter)
             ctx.check(not errs, f"{op}/callback-receives-parents-value", lambda: errs[0])
@@ -266,10 +288,10 @@ def run_case(case, ctx):
             def leave(node, cvs):
                 i = int(node.id)
                 called.append(i)
-                want = sorted(("v", c) for c in ch[i])
-                if sorted(cvs) != want:
+                want = sorted(repr(val(c)) for c in ch[i])
+                if sorted(repr(v) for v in cvs) != want:
                     errs.append(f"node {i} received {cvs!r}, expected {want!r}")
-                return ("v", i), flags[i]
+                return val(i), flags[i]
 
             out = cut_tree(tree, leave=leave)
             ctx.check(not errs, f"{op}/callback-receives-childrens-values", lambda: errs[0])
@@ -316,7 +338,36 @@ def run_case(case, ctx):
             thre = 5.0 * case["thre_mul"]
         ambiguous = [tb for tb in tbs if abs(tb[2] - thre) <= 1e-4 * max(thre, 1e-6)]
         cb_calls = []
-        cutter = _worn(CutShortTipBranch(thre, callback=lambda br: cb_calls.append([int(v) for v in br.origin_id()])), case, ctx)
+        armed = [False]
+
+        def user_cb(br):
+            if armed[0]:
+                armed[0] = False
+                raise _Veto()
+            cb_calls.append([int(v) for v in br.origin_id()])
+
+        cutter = _worn(CutShortTipBranch(thre, callback=user_cb), case, ctx)
+        if case.get("aborted_before") and thre > 0:
+            # a tree on which the transform finds several short tips; the user's callback vetoes the second one it is shown
+            # by raising, the caller catches that and goes on using the object
+            dec = _decoy_tree()
+            for c in "xyz":
+                dec.ndata[c][...] = dec.ndata[c] * np.float32(thre * 0.2)
+            seen = [0]
+
+            def count_then_raise(br):
+                seen[0] += 1
+                if seen[0] >= 2:
+                    raise _Veto()
+
+            cutter.callbacks.append(count_then_raise)
+            try:
+                cutter(dec)
+            except _Veto:
+                ctx.cls("transform-object-used-after-an-aborted-call")
+            finally:
+                if count_then_raise in cutter.callbacks:
+                    cutter.callbacks.remove(count_then_raise)
         cb_calls.clear()
         out = cutter(tree)
         removed_min, removed_max = set(), set()
@@ -367,5 +418,6 @@ SUBCHECKS = [
         required={**{"op:" + o: 60 for o in OPS}, "empty-result": 20, "type-absent": 10,
                   "short_tip:removes": 20, "permuted": 200,
                   "mapping:container-reused-from-an-earlier-call": 30, "mapping:container-prefilled": 30,
-                  "transform-object-reused": 100, "removals-as:generator": 10, "removals-as:iter": 10, "removals-as:chain": 10, "removals-as:ndarray": 10}),
+                  "transform-object-reused": 100, "removals-as:generator": 10, "removals-as:iter": 10, "removals-as:chain": 10, "removals-as:ndarray": 10,
+                  "callback-state:int-offset": 100, "callback-state:markers": 100, "transform-object-used-after-an-aborted-call": 40}),
 ]
